@@ -41,6 +41,9 @@ def to_model(case, obs):
             evs.append("Trigger %d (%d, %d)" % (c[1], c[2], c[3]))
         elif n == "trigger_noop":
             evs.append("TriggerNoop %d (%d, %d)" % (c[1], c[2], c[3]))
+        elif n == "corrupt_read":
+            # turmoil-fs fires the corruption hook = trigger_noop(FsCorruption{offset: n}) (type tag 2)
+            evs.append("TriggerNoop %d (2, %d)" % (c[1], c[2]))
         elif n == "wait":
             evs.append("Wait %d" % c[1])
         elif n == "drop_handle":
@@ -66,7 +69,7 @@ def compare(case, obs, model, probes):
         if n == "build":
             if [0, r] != list(mo):
                 return "%s: barrier number %s, model %s" % (where, r, mo)
-        elif n in ("trigger", "trigger_noop"):
+        elif n in ("trigger", "trigger_noop", "corrupt_read"):
             want = "sent" if mo == [1] else "busy"
             if r != want:
                 return "%s: source was %s for the implementation, %s for the model" % (where, r, want)
@@ -115,8 +118,11 @@ def oracle(case, obs):
         if n == "build":
             live.append([nb, c[1], c[2], c[3], []])
             nb += 1
-        elif n in ("trigger", "trigger_noop"):
+        elif n in ("trigger", "trigger_noop", "corrupt_read"):
             src = c[1]
+            if n == "corrupt_read":
+                c = ["trigger_noop", c[1], 2, c[2]]
+                n = "trigger_noop"
             if r == "sent":
                 if state[src] != "run":
                     fail("%s: a %s source made a trigger call" % (where, state[src]))
@@ -220,10 +226,16 @@ def gen_script(rng, mode="local", size=None):
     for _ in range(size):
         x = rng.random()
         if nb == 0 or (x < 0.14 and len(live) < 5):
-            s.append(["build", rng.choice([0, 0, 1]), rng.choice(reacts), rand_cond(rng)])
+            if mode == "sim" and rng.random() < 0.35:
+                s.append(["build", 2, "noop", rand_cond(rng)])      # Barrier<FsCorruption>
+            else:
+                s.append(["build", rng.choice([0, 0, 1]), rng.choice(reacts), rand_cond(rng)])
             live.append(nb)
             nb += 1
         elif x < 0.55:
+            if mode == "sim" and rng.random() < 0.3:
+                s.append(["corrupt_read", rng.randrange(nsrc), rng.randrange(8)])
+                continue
             kind = "trigger" if (rng.random() < 0.8 or mode == "sim") else "trigger_noop"
             s.append([kind, rng.randrange(nsrc), rng.choice([0, 0, 1]), rng.randrange(8)])
         elif x < 0.78:
